@@ -141,16 +141,11 @@ theorem schedule_sequential (ser : Meta → List Nat) (p : Prog) : Schedule ser 
 
 /-- `TInv` after every prefix of every schedule. -/
 theorem tinv_at_crash_sched (C : Codec) (p : Prog) (L : List FOp) (hL : Schedule C.ser p L) (hwf : WellFormed p)
-    (hm : p.tmpMode = false ∨ ObsFirst p) (t : ThreadProg) (ht : t ∈ p.threads) (k : Nat) :
+    (t : ThreadProg) (ht : t ∈ p.threads) (k : Nat) :
     TInv C t (viewOf (crashStateS p L k) t.tid) := by
   obtain ⟨k', hk'⟩ := view_at_crash_sched C.ser p L hL t ht hwf k
   rw [hk']
-  cases hp : p.tmpMode with
-  | false => exact (thread_direct C p t hp _ rfl).1 k'
-  | true =>
-    rcases hm with hm | hm
-    · rw [hp] at hm; cases hm
-    · exact (thread_tmp_obs_first C p t hp hm _ rfl).1 k'
+  exact thread_tinv C p t k'
 
 /-- From the thread invariants of a state to the C09 conclusion for that state. -/
 theorem crash_consistent_of_inv (E : EmuCfg) (C : Codec) (p : Prog) (s : Fs)
